@@ -1,9 +1,10 @@
 (* Extraction of the C10 model and of the executable property clauses.  ExtrOcamlBasic only. *)
-From RsM Require Import Lib.MachInt Model.Dedup Model.Mrp Model.Exchange Model.ExchangeSpec.
+From RsM Require Import Lib.MachInt Model.Dedup Model.Mrp Model.Exchange Model.ExchangeSpec Model.ExchangeTx.
 Require Import ExtrOcamlBasic.
 Extraction Language OCaml.
 Extraction "model.ml"
   N.add N.mul N.div_eucl N.eqb
   rm_new post_recv session_post_recv sys_init step owner_of find_sid
   post_recv_ok sessions_lifecycle_b deliver_ok sweep_orphan_ok sweep_accept_ok close_ok accept_ok rx_ok
-  unowned delivery_matches drop_ok is_pending is_owned is_dropped.
+  unowned delivery_matches drop_ok is_pending is_owned is_dropped
+  sysx_init stepx.
